@@ -10,6 +10,7 @@ import (
 	"encoding/json"
 	"fmt"
 	"reflect"
+	"sort"
 	"strings"
 	"time"
 
@@ -101,6 +102,12 @@ func runEngine(db []J, query J, qv int, max int, maxEvents int) (*engineRun, err
 		}
 		cn := jt.NewCanon(env)
 		g := cn.Term(name.Apply(args...))
+		if cn.TooBig {
+			r.status = "toobig"
+			stop = true
+			cancel()
+			return
+		}
 		if cn.Cyclic {
 			r.status = "cyclic"
 			stop = true
@@ -148,6 +155,10 @@ func runEngine(db []J, query J, qv int, max int, maxEvents int) (*engineRun, err
 			}
 			cn.Env = cv.env
 			b = append(b, cn.Term(cv.term))
+		}
+		if cn.TooBig {
+			r.status = "toobig"
+			break
 		}
 		if cn.Cyclic {
 			r.status = "cyclic"
@@ -218,19 +229,40 @@ func engineHandle(c map[string]J) map[string]J {
 	exp, has := c["events"].([]J)
 	if !has {
 		// record mode
-		if r.status != "" {
+		switch r.status {
+		case "toolong", "toobig":
 			return map[string]J{"status": "discard", "why": r.status, "input": input}
+		case "hang":
+			return map[string]J{"status": "hang", "input": input, "detail": "Next did not return within 5s"}
+		case "cyclic":
+			// the recorder met a cyclic term: acceptable only if the reference run says the program is subject to occurs check
+			return map[string]J{"status": "crash", "input": input, "detail": "cyclic term observed"}
 		}
 		return map[string]J{"status": "recorded", "events": r.events, "input": input}
 	}
 	if r.status == "hang" {
 		return map[string]J{"status": "mismatch", "input": input, "observed": "Next did not return within 5s", "what": "hang"}
 	}
+	if r.status == "toobig" {
+		return map[string]J{"status": "discard", "why": r.status, "input": input}
+	}
+	if dep, _ := c["vardep"].(bool); dep {
+		// the expected result hinges on the order of two distinct unbound variables (ISO 7.2: implementation dependent)
+		return map[string]J{"status": "discard", "why": "var-order-dependent", "input": input}
+	}
 	want := normEvents(exp)
 	// round-trip observed events through JSON so that both sides have the same dynamic types
 	var got []map[string]J
 	bs, _ := json.Marshal(r.events)
 	_ = json.Unmarshal(bs, &got)
+	if nc, _ := c["nocalls"].(bool); nc {
+		got = dropCalls(got)
+		want = dropCalls(want)
+	}
+	if c["ansorder"] == "free" {
+		sortAnsRuns(got)
+		sortAnsRuns(want)
+	}
 	for i := 0; i < len(want) || i < len(got); i++ {
 		if i >= len(want) || i >= len(got) || !reflect.DeepEqual(want[i], got[i]) {
 			res := map[string]J{"status": "mismatch", "input": input, "at": i}
@@ -248,4 +280,40 @@ func engineHandle(c map[string]J) map[string]J {
 		}
 	}
 	return map[string]J{"status": "ok", "events": len(got), "input": input}
+}
+
+// dropCalls removes call events (cases that compare answers only); output attached to them moves to the next event.
+func dropCalls(evs []map[string]J) []map[string]J {
+	var out []map[string]J
+	carry := ""
+	for _, e := range evs {
+		o, _ := e["out"].(string)
+		if e["ev"] == "call" {
+			carry += o
+			continue
+		}
+		e["out"] = carry + o
+		carry = ""
+		out = append(out, e)
+	}
+	return out
+}
+
+// sortAnsRuns sorts every maximal run of consecutive answers: the order of bagof/setof groups is not constrained.
+func sortAnsRuns(evs []map[string]J) {
+	key := func(e map[string]J) string { b, _ := json.Marshal(e); return string(b) }
+	for i := 0; i < len(evs); {
+		j := i
+		for j < len(evs) && evs[j]["ev"] == "ans" {
+			j++
+		}
+		if j > i+1 {
+			run := evs[i:j]
+			sort.Slice(run, func(a, b int) bool { return key(run[a]) < key(run[b]) })
+		}
+		if j == i {
+			j++
+		}
+		i = j
+	}
 }
